@@ -73,4 +73,21 @@ func init() {
 		DesignRef: "DESIGN.md §6 C04",
 		Technique: technique,
 	})
+	register(Check{
+		ID: "C05", Title: "Invalid programs are rejected and nothing of them runs", Level: "model_checking",
+		Units: []Unit{evalUnit([]string{"evaluator/common.go", "evaluator/c05.go"},
+			Harness{Fn: "ZZC05Reject", Expect: []string{"valid-runs", "rejected", "witness:end"}},
+		), mainUnit([]string{"main/c18.go", "main/c05m.go"},
+			Harness{Fn: "ZZC05CLI", Expect: []string{"cli-rejected", "cli-valid", "witness:end"}},
+		)},
+		Assumptions: []string{
+			"one rule-breaking edit (25 rules) at every position where it applies (top level early/late, function, procedure, handler, if block, loop body) of a valid skeleton with effects (print, move, cls, read, sleep, calls) in every position",
+			"CLI: model file system, os.Exit/stdout/stderr/sleep/exec are recording stubs",
+		},
+		Outside:   []string{"programs with several independent errors", "edits outside the rule table", "the for-all statement 'Run never evaluates when Parse fails' is checked on these programs, not with a nondeterministic Parse stub"},
+		LevelText: "exhaustive exploration of the rule x position space on the real parser and evaluator (Evaluator.Run) and on runCmd.Run/handleEvyErr with a recording platform: at least one located error, no platform call at all, non-zero exit status, stderr text, no SVG file",
+		LevelNote: "trusts the rule table in the harness and the engine; structural data only, the solver is the enumerator",
+		DesignRef: "DESIGN.md §6 C05",
+		Technique: technique,
+	})
 }
